@@ -381,6 +381,36 @@ func thriftTargets(r *h.Rand, desc *thrift.TypeDescriptor, v *tref.Val, root *ge
 				}
 			}
 		}},
+		{"thrift.generic.Value.Field+descend", func(in []byte) {
+			// single typed steps, then every descriptor-driven reader on what they hand back (two levels)
+			var walk func(x generic.Value, depth int)
+			walk = func(x generic.Value, depth int) {
+				if x.IsError() {
+					return
+				}
+				x.Foreach(func(p generic.Path, v generic.Value) bool { return true }, gopts)
+				x.ForeachKV(func(k, v generic.Value) bool { return true }, gopts)
+				if depth > 0 {
+					x.Interface(gopts) // (the root's Interface is a target of its own; one call's budget is not shared by several full passes)
+				}
+				if depth >= 2 {
+					return
+				}
+				walk(x.Index(0), depth+1)
+				walk(x.GetByStr("k"), depth+1)
+				walk(x.GetByInt(1), depth+1)
+				if x.Desc != nil && x.Desc.Type() == thrift.STRUCT && x.Desc.Struct() != nil {
+					for i, f := range x.Desc.Struct().Fields() {
+						if i >= 6 {
+							break
+						}
+						walk(x.Field(f.ID()), depth+1)
+						walk(x.FieldByName(f.Name()), depth+1)
+					}
+				}
+			}
+			walk(generic.NewValue(desc, in), 0)
+		}},
 		{"thrift.generic.Value.MarshalTo", func(in []byte) { generic.NewValue(desc, in).MarshalTo(desc, gopts) }},
 		{"thrift.generic.Node.Fields-Foreach", func(in []byte) {
 			n := generic.NewNode(thrift.STRUCT, in)
